@@ -489,6 +489,37 @@ def e_change_type_arg(pkg, r):
     return dict(cls=BREAKING, name="change-type-argument", where=(pkg.defs[di].name, mi, p))
 
 
+def e_fixed_to_variable(pkg, r):
+    """a fixed-length vector / fixed-size array becomes variable-length (documented as incompatible: the encoding changes)"""
+    cands = [(di, mi, p, s) for di, mi, p, s in sites(pkg) if ((isinstance(s, V) and s.length is not None) or (isinstance(s, A) and s.kind == "fixed"))
+             and not in_generic_arg(p) and not any(q[0] == "case" for q in p)      # inside a union case it is also "adding / removing a union type"
+             and not isinstance(pkg.defs[di], Al) and pkg.defs[di].name in reachable_defs(pkg)]
+    c = _pick(r, cands)
+    if not c:
+        return None
+    di, mi, p, s = c
+    new = V(s.item) if isinstance(s, V) else A(s.item, tuple((n, None) for n, _ in s.dims) if all(n for n, _ in s.dims) else len(s.dims))
+    set_member_type(pkg, di, mi, replace_at(member_type(pkg, di, mi), p, new))
+    return dict(cls=BREAKING, name="fixed-to-variable-length", where=(pkg.defs[di].name, mi, p))
+
+
+def e_inline_alias_with_other_arg(pkg, r):
+    """a reference to a closed alias of a generic (GenOfInt = Gen<int32>) is replaced by the generic with a different type argument"""
+    cands = []
+    for di, mi, p, s in sites(pkg):
+        if isinstance(s, N) and s.ns is None and not s.args and not in_generic_arg(p) and pkg.defs[di].name in reachable_defs(pkg):
+            d = pkg.find(s.name)
+            if isinstance(d, Al) and not d.tparams and isinstance(d.type, N) and d.type.args and all(isinstance(a, P) for a in d.type.args):
+                cands.append((di, mi, p, d.type))
+    c = _pick(r, cands)
+    if not c:
+        return None
+    di, mi, p, gt = c
+    new_args = tuple(P("float64") if a.name != "float64" else P("int16") for a in gt.args)
+    set_member_type(pkg, di, mi, replace_at(member_type(pkg, di, mi), p, N(gt.name, new_args, gt.ns)))
+    return dict(cls=BREAKING, name="inline-alias-with-other-type-argument", where=(pkg.defs[di].name, mi, p))
+
+
 def e_change_generic_arity(pkg, r):
     c = _pick(r, [(di, d) for di, d in enumerate(pkg.defs) if isinstance(d, Rec) and d.tparams and d.name in reachable_defs(pkg)])
     if not c:
@@ -525,7 +556,7 @@ EDITS = {
     COMPATIBLE: [e_add_optional_field, e_remove_optional_field, e_reorder_fields, e_add_step, e_rename_with_alias, e_add_unused_alias, e_introduce_alias],
     PARTIAL: [e_number_change, e_number_string, e_make_optional, e_make_required, e_optional_to_union, e_scalar_to_union, e_union_to_scalar,
               e_add_union_case, e_remove_union_case, e_add_required_field, e_remove_required_field],
-    BREAKING: [e_remove_step, e_reorder_steps, e_change_enum, e_scalar_to_vector, e_change_type_arg, e_change_generic_arity],
+    BREAKING: [e_remove_step, e_reorder_steps, e_change_enum, e_scalar_to_vector, e_change_type_arg, e_change_generic_arity, e_fixed_to_variable, e_inline_alias_with_other_arg],
 }
 ALL_EDITS = [e for v in EDITS.values() for e in v]
 
@@ -554,7 +585,10 @@ def evo_base(key: str, rich: bool = True) -> Pkg:
     # two instantiations of one generic; OnlyViaArg is reachable only through the type argument of the second one
     pkg.defs.insert(3, Rec("OnlyViaArg", [("r", P("int32")), ("name", P("string")), ("w", Opt(P("float32")))]))
     pkg.defs.insert(4, Rec("TwoGens", [("first", N("Gen", (P("float32"),))), ("second", N("Gen", (N("OnlyViaArg"),)))]))
-    proto = Proto("Main", [("head", N("Plain")), ("count", P("int64")), ("kind", N("Kind")), ("gen", N("Gen", (P("int32"),))), ("two", S(N("TwoGens"))),
+    # a closed alias of a generic, fixed-length vectors and fixed-size arrays
+    pkg.defs.insert(5, Al("GenOfInt", N("Gen", (P("int32"),))))
+    pkg.defs.insert(6, Rec("Shapes", [("viaAlias", N("GenOfInt")), ("fixedVec", V(P("int32"), 3)), ("fixedArr", A(P("float32"), (("x", 4), ("y", 5)))), ("fixedArrNoNames", A(P("int16"), ((None, 2),)))]))
+    proto = Proto("Main", [("head", N("Plain")), ("count", P("int64")), ("kind", N("Kind")), ("gen", N("Gen", (P("int32"),))), ("two", S(N("TwoGens"))), ("shapes", N("Shapes")), ("galias", N("GenOfInt")),
                            ("opt", Opt(P("int32"))), ("items", S(N("Plain"))), ("nums", V(P("float32"))), ("tail", P("string"))])
     pkg.defs.append(proto)
     return pkg
